@@ -17,10 +17,11 @@ anything outside the listed classes is a violation.
 """
 
 import itertools
+import json
 
 from . import c04, tables
 from .c04 import OPID, OPS, atom_fields, c_atom, cls_glob, compile_pools, parse_plain, pkg_fields
-from .common import Check, Err, clist, impl_call
+from .common import VERIF, Check, Err, clist, impl_call
 from .tables import TableError
 
 IMPORTS = ("From Coq Require Import List NArith ZArith Bool.\n"
@@ -34,6 +35,16 @@ ATTRS = ["", ":0", ":1", ":0/1", ":0/2", ":1/1", "::gentoo", "::other", ":0::gen
          "[-x(+)]", "[x(-)]", "[-x(-)]", "[y]", "[x,y]", "[-x,-y]", "[x,-y]", "[-x,y(+)]", ":0[x]", ":1::other[-y]",
          ":0/1[x(+),-y]", ":="]
 KEY = "a/b"
+# versions equal under ver_cmp, spelt differently: every operator cell is run on every ordered
+# pair of spellings of a group (an implementation that compares version TEXT where the pinned code
+# compares with ver_cmp gives a wrong answer on some of these)
+SPELL_GROUPS = [["1.0", "1.00"], ["1", "1-r0", "1-r00"], ["1-r1", "1-r01"], ["1_p", "1_p0"], ["1_alpha", "1_alpha0"],
+                ["1.0.1-r2", "1.00.1-r02"]]
+
+
+def _split_rev(v):
+    base, sep, r = v.partition("-r")
+    return base, (sep + r)
 
 
 def vtext(op, v, r):
@@ -111,8 +122,12 @@ def canon_text(f):
 
 
 def cls_respelt(fa, fb):
-    """incomplete: at least one atom is not canonically spelt (1.00 for 1.0, -r0, -r01) and the
-    pair DOES intersect when both are written canonically"""
+    """incomplete: the cell is one where the pinned code tests version TEXT (a glob on one side, or
+    two `~`), at least one atom is not canonically spelt (1.00 for 1.0, -r0, -r01) and the pair
+    DOES intersect when both are written canonically.  Every other cell compares with ver_cmp and
+    must be complete whatever the spelling."""
+    if not (6 in (fa["op"], fb["op"]) or (fa["op"] == 5 and fb["op"] == 5)):
+        return False
     ta, tb = canon_text(fa), canon_text(fb)
     if (ta, tb) == (vtext_of(fa), vtext_of(fb)):
         return False
@@ -226,6 +241,19 @@ def main(chk: Check):
                 vts.append(vtext(op, v, rng.choice(AREVS)))
     vts += ["=a/b-1-r0*", "~a/b-1.0", ">a/b-1", "<a/b-1-r1", "=a/b-1*", ">a/b-2", "=a/b-1.0", "=a/b-1.00*",
             "~a/b-1.00", "=a/b-1_p*", "<a/b-1", ">=a/b-1.0", "=a/b-0-r1*", ">a/b-0-r1", "=a/b-1-r1*", "~a/b-1"]
+    # fixed cases that run first: the corpus pairs, then every operator cell on every ordered pair
+    # of spellings of each group
+    first_pairs = []
+    for f in sorted((VERIF / "corpus" / "C05").glob("*.json")):
+        first_pairs += [tuple(x) for x in json.loads(f.read_text()).get("pairs", [])]
+    for grp in SPELL_GROUPS:
+        for va in grp:
+            for vb in grp:
+                for opa in OPS[:7]:
+                    for opb in OPS[:7]:
+                        first_pairs.append((vtext(opa, *_split_rev(va)), vtext(opb, *_split_rev(vb))))
+    first_pairs = list(dict.fromkeys(first_pairs))
+    vts = [t for pr in first_pairs for t in pr] + vts
     vts = list(dict.fromkeys(vts))
     vatoms = {}
     for t in vts:
@@ -240,8 +268,14 @@ def main(chk: Check):
             aatoms[s] = (a, atom_fields(a))
     attrs = [s for s in ATTRS if s in aatoms]
 
+    first_pairs = [(ta, tb) for ta, tb in first_pairs if ta in vatoms and tb in vatoms]
     # ---- witness sets
-    uni = version_universe(versions)
+    uni = version_universe(versions + [v.partition("-r")[0] for g in SPELL_GROUPS for v in g])
+    # a glob with a revision (=V-rN*) matches V-rN followed by further digits: close the universe
+    for t in vts:
+        f = vatoms[t][1]
+        if f["op"] == 6 and f["rev"] is not None:
+            uni += [f["fullver"] + d for d in "019" if f["fullver"] + d not in uni]
     vpk = []
     for u in uni:
         try:
@@ -260,7 +294,7 @@ def main(chk: Check):
     chk.count("wit/match-evaluations", len(vts) * len(vpk) + len(attrs) * len(apk))
 
     # ---- pairs
-    pairs = []          # (vtext_a, attr_a, vtext_b, attr_b)
+    pairs = [(ta, "", tb, "") for ta, tb in first_pairs]          # (vtext_a, attr_a, vtext_b, attr_b)
     if big:
         for ta in vts:
             for tb in vts:
